@@ -55,6 +55,24 @@ def gen(rng, tier):
                 c['locals_self'] = 'loc'
                 c['actions'][0].setdefault('watches', []).append('loc')
             yield c
+        elif r < 0.955:
+            # dict views among the locals, then a watch that creates many new pairs
+            c = cc.gen_case(rng, nobj=rng.choice([6, 10]), stream='views', watches=False,
+                            lim={'vars': None, 'str': None, 'coll': rng.choice([None, 50]), 'depth': None})
+            for k in rng.sample(['dict_items', 'dict_keys', 'dict_values'], rng.randint(1, 3)):
+                c['objs'] = c['objs'] + [{'t': 'atom', 'k': k}]
+                c['locals'] = [['view_' + k, len(c['objs']) - 1]] + c['locals']
+            c['actions'][0]['watches'] = [rng.choice(['[(i, str(i)) for i in range(40)]', '[(i, i * 1000) for i in range(30)]',
+                                                      'list(zip(range(1000, 1040), range(2000, 2040)))'])]
+            yield c
+        elif r < 0.965:
+            # a string that is not valid text (lone surrogate, as os.fsdecode gives for undecodable file names): either
+            # nothing is sent (the open finding C08/lone-surrogate-dropped) or what is sent is closed
+            c = cc.gen_case(rng, nobj=rng.choice([6, 10, 16]), stream='surrogate')
+            c['objs'] = c['objs'] + [{'t': 'str', 'v': rng.choice(['report-\udcff.txt', 'v\ud800', '\udfff'])},
+                                     {'t': 'list', 'e': [len(c['objs'])]}]
+            c['locals'] = c['locals'] + [[rng.choice(['fname', 'path']), len(c['objs']) - rng.choice([1, 2])]]
+            yield c
         elif r < 0.975:
             # nothing collected before the log message (no frame variables, no watches), then a capture: log values and
             # the captured value must still be numbered by ONE cache
@@ -107,6 +125,14 @@ def corpus():
                   {'t': 'str', 'v': 'bb'}],
          'locals': [['a', 0], ['b', 4]], 'frame_type': 'single_frame', 'stream': 'corpus', 'capture': 'return',
          'capture_expr': '[a, b, 7]', 'actions': [{'limits': {'vars': 2}}]},
+        # dict views in the frame, then a watch that creates many new pairs
+        {'objs': [{'t': 'atom', 'k': 'dict_items'}, {'t': 'atom', 'k': 'dict_keys'}, {'t': 'atom', 'k': 'dict_values'}],
+         'locals': [['items', 0], ['keys', 1], ['values', 2]], 'frame_type': 'single_frame', 'stream': 'corpus',
+         'actions': [{'limits': {'coll': 50, 'vars': None}, 'watches': ['[(i, str(i)) for i in range(40)]']}]},
+        # a file name that is not valid text, directly and inside a list
+        {'objs': [{'t': 'str', 'v': 'report-\udcff.txt'}, {'t': 'list', 'e': [0, 2]}, {'t': 'int', 'v': 7}],
+         'locals': [['fname', 0], ['names', 1], ['n', 2]], 'frame_type': 'single_frame', 'stream': 'corpus',
+         'actions': [{'limits': {}, 'watches': ['names']}]},
         # nothing collected before the log message, then a capture of another object
         {'objs': [{'t': 'str', 'v': 'alpha'}, {'t': 'list', 'e': [0, 0]}], 'locals': [['a', 0], ['b', 1]],
          'frame_type': 'no_frame', 'stream': 'corpus', 'capture': 'return', 'capture_expr': 'b',
@@ -151,6 +177,7 @@ def oracle(case, obs):
         v.append('trace_call raised into the host: ' + obs['raised'])
     for ai, s in cc.snapshots_by_action(case, obs):
         v += cc.judge_identity(case, obs, live, ai, s)
+    v += cc.judge_wire(case, obs, delivery=False)
     return v
 
 
